@@ -45,6 +45,9 @@ class Unsupported(Exception):
     pass
 
 
+OPTIONS = {}     # opt-in translation forms, set from the spec ("fstrings": true)
+
+
 # external callables: dotted python name -> (coq name, positional params, [(kw, default)])
 # default None => Python None;  'T'/'F' => True/False
 SIGS = {
@@ -259,12 +262,29 @@ class FunTranslator:
         return f'(vindex O {self.expr(n.value)} {self.expr(n.slice)})'
 
     def e_JoinedStr(self, n):
-        return '(VStr O "<f-string>")'
+        if not OPTIONS.get('fstrings'):
+            return '(VStr O "<f-string>")'
+        # opt-in (spec "fstrings": true): f'a{i}' -> (py_fstr O [VStr "a"; i]); no conversions / format specs
+        parts = []
+        for v in n.values:
+            if isinstance(v, ast.Constant) and isinstance(v.value, str):
+                parts.append(f'(VStr O {coq_string(v.value)})')
+            elif isinstance(v, ast.FormattedValue) and v.conversion == -1 and v.format_spec is None:
+                parts.append(self.expr(v.value))
+            else:
+                raise Unsupported(f'f-string conversion / format spec at line {n.lineno}')
+        return '(py_fstr O [' + '; '.join(parts) + '])'
 
-    def _bind_args(self, what, params, kwdefs, args, keywords, lineno):
+    def _bind_args(self, what, params, kwdefs, args, keywords, lineno, allow_star=False):
         """returns the list of coq argument strings in declaration order"""
-        if any(isinstance(a, ast.Starred) for a in args) or any(k.arg is None for k in keywords):
-            raise Unsupported(f'*args/**kwargs in call to {what} at line {lineno}')
+        if any(isinstance(a, ast.Starred) for a in args):
+            raise Unsupported(f'*args in call to {what} at line {lineno}')
+        star = [k for k in keywords if k.arg is None]
+        keywords = [k for k in keywords if k.arg is not None]
+        if star and not allow_star:
+            raise Unsupported(f'**kwargs in call to {what} at line {lineno}')
+        if len(star) > 1 or (star and not (isinstance(star[0].value, ast.Name) and star[0].value.id in self.locals)):
+            raise Unsupported(f'**kwargs form in call to {what} at line {lineno}')
         names = list(params) + [k for k, _ in kwdefs]
         defaults = dict(kwdefs)
         if len(args) > len(names):
@@ -279,6 +299,17 @@ class FunTranslator:
                 raise Unsupported(f'duplicate argument {k.arg} for {what}')
             given[k.arg] = self.expr(k.value)
         out = []
+        self._star_check = None
+        if star:
+            # f(x, **d): every parameter not given explicitly must be a REQUIRED keyword parameter and is
+            # read from d; d may hold no other key (kw_check, defined by the property's SemExt)
+            d = self.var(star[0].value.id)
+            rest = [nm for nm in names if nm not in given]
+            if any(nm in params or defaults.get(nm) != '!' for nm in rest):
+                raise Unsupported(f'**kwargs feeding optional/positional parameters of {what} at line {lineno}')
+            for nm in rest:
+                given[nm] = f'(vindex O {d} (VStr O {coq_string(nm)}))'
+            self._star_check = f'(kw_check O {d} [' + '; '.join(coq_string(nm) for nm in rest) + '])'
         for name in names:
             if name in given:
                 out.append(given[name])
@@ -289,6 +320,10 @@ class FunTranslator:
                 raise Unsupported(f'missing argument {name} for {what} at line {lineno}')
         return out
 
+    def _with_star_check(self, call):
+        chk, self._star_check = getattr(self, '_star_check', None), None
+        return call if chk is None else f'(vbind O {chk} (fun _ => {call}))'
+
     def e_Call(self, n):
         f = n.func
         d = self.dotted(f)
@@ -296,12 +331,12 @@ class FunTranslator:
         if isinstance(f, ast.Name) and f.id not in self.locals:
             if f.id in self.mod.local_funcs:
                 params, kwdefs = self.mod.local_funcs[f.id]
-                args = self._bind_args(f.id, params, kwdefs, n.args, n.keywords, n.lineno)
-                return '(' + ' '.join([self.mod.coq_name(f.id)] + args) + ')'
+                args = self._bind_args(f.id, params, kwdefs, n.args, n.keywords, n.lineno, allow_star=True)
+                return self._with_star_check('(' + ' '.join([self.mod.coq_name(f.id)] + args) + ')')
             if f.id in self.mod.imports:
                 other, params, kwdefs = self.mod.imports[f.id]
-                args = self._bind_args(f.id, params, kwdefs, n.args, n.keywords, n.lineno)
-                return '(' + ' '.join([f'{other} O'] + args) + ')'
+                args = self._bind_args(f.id, params, kwdefs, n.args, n.keywords, n.lineno, allow_star=True)
+                return self._with_star_check('(' + ' '.join([f'{other} O'] + args) + ')')
             if f.id in SIGS:
                 cn, params, kwdefs = SIGS[f.id]
                 args = self._bind_args(f.id, params, kwdefs, n.args, n.keywords, n.lineno)
@@ -352,6 +387,17 @@ class FunTranslator:
             if len(targets) != 1 or s.value is None:
                 raise Unsupported(f'assignment form at line {s.lineno}')
             t = targets[0]
+            v = s.value
+            if (isinstance(t, ast.Name) and isinstance(v, ast.Call) and isinstance(v.func, ast.Attribute)
+                    and v.func.attr == 'pop' and isinstance(v.func.value, ast.Name)
+                    and v.func.value.id in self.locals and v.func.value.id != t.id
+                    and len(v.args) == 1 and not v.keywords and 'pop' not in METHODS):
+                # x = d.pop(k): binds x and REBINDS d without k (pop_value / pop_rest live in the property's SemExt)
+                d = self.var(v.func.value.id)
+                key = self.expr(v.args[0])
+                self.locals.add(t.id)
+                return (f'(vbind O (pop_value O {d} {key}) (fun {self.var(t.id)} =>\n'
+                        f'   (vbind O (pop_rest O {d} {key}) (fun {d} =>\n   {k()}))))')
             rhs = self.expr(s.value)
             if isinstance(t, ast.Name):
                 self.locals.add(t.id)
@@ -377,6 +423,8 @@ class FunTranslator:
                 raise Unsupported(f'augmented assignment to non-local {s.target.id}')
             rhs = f'({op} O {x} {self.expr(s.value)})'
             return f'(vbind O {rhs} (fun {x} =>\n   {k()}))'
+        if isinstance(s, ast.For):
+            return self.for_range(s, k)
         if isinstance(s, ast.If):
             c = self.expr(s.test)
             saved = set(self.locals)
@@ -386,6 +434,44 @@ class FunTranslator:
             self.locals = set(saved) | self._assigned(s)
             return f'(vif O {c}\n   {a}\n   {b})'
         raise Unsupported(f'statement {type(s).__name__} at line {s.lineno}')
+
+    def for_range(self, s, k):
+        """for i in range(...): simple body   ->   py_for_range O lo hi step (fun i st => body') st0
+        The loop-carried state is the tuple of the locals the body assigns (all must exist before the
+        loop); no return/raise/break/continue/else; the loop variable is not visible afterwards."""
+        it = s.iter
+        if not (isinstance(s.target, ast.Name) and isinstance(it, ast.Call) and isinstance(it.func, ast.Name)
+                and it.func.id == 'range' and 'range' not in self.locals and not it.keywords
+                and 1 <= len(it.args) <= 3 and not s.orelse):
+            raise Unsupported(f'for statement other than `for i in range(...)` at line {s.lineno}')
+        for x in ast.walk(s):
+            if isinstance(x, (ast.Return, ast.Raise, ast.Break, ast.Continue, ast.For, ast.While)) and x is not s:
+                raise Unsupported(f'{type(x).__name__} inside a for body at line {s.lineno}')
+        a = [self.expr(e) for e in it.args]
+        if len(a) == 1:
+            lo, hi, st = '(VInt O (0))', a[0], '(VInt O (1))'
+        elif len(a) == 2:
+            lo, hi, st = a[0], a[1], '(VInt O (1))'
+        else:
+            lo, hi, st = a
+        i = s.target.id
+        carried = sorted(self._assigned(ast.Module(body=s.body, type_ignores=[])))
+        if i in carried or any(c not in self.locals for c in carried) or i in self.locals:
+            raise Unsupported(f'for body assigns the loop variable or a new local at line {s.lineno}')
+        tup = '(VTuple O [' + '; '.join(self.var(c) for c in carried) + '])'
+
+        def unpack(body, stv):
+            for j, c in reversed(list(enumerate(carried))):
+                body = f'(vbind O (vindex O {stv} (VInt O {j})) (fun {self.var(c)} =>\n   {body}))'
+            return body
+        saved = set(self.locals)
+        self.locals.add(i)
+        stv = f'st{s.lineno}'
+        inner = unpack(self.block(s.body, lambda: tup), stv)
+        self.locals = set(saved)
+        after = unpack(k(), stv)
+        return (f'(vbind O (py_for_range O {lo} {hi} {st} (fun {self.var(i)} {stv} =>\n   {inner}) {tup})\n'
+                f'   (fun {stv} => {after}))')
 
     def _assigned(self, node):
         out = set()
@@ -525,7 +611,7 @@ class Module:
             out.append(f'Require Import {req}.')
         out += ['Import ListNotations.', 'Open Scope string_scope.', 'Open Scope Z_scope.', '',
                 f'Definition source_sha256 : string := "{sha}".', '',
-                'Section Gen.', 'Variable O : Fops.', '']
+                'Section Gen.', 'Variable O : Fops.'] + list(self.spec.get('section', [])) + ['']
         report = {}
         for q in self.ordered(self.spec['functions']):
             if q not in self.defs:
@@ -552,6 +638,7 @@ def main():
         SIGS[k] = (v[0], v[1], [tuple(x) for x in v[2]])
     for k, v in spec.get('methods', {}).items():
         METHODS[k] = (v[0], v[1], [tuple(x) for x in v[2]])
+    OPTIONS['fstrings'] = bool(spec.get('fstrings'))
     repo = spec.get('repo', '/repo')
     os.makedirs(outdir, exist_ok=True)
     all_sigs = {}
